@@ -99,23 +99,44 @@ type simState struct {
 	f      ref.Flags
 	out    bytes.Buffer
 	writes int
+	// what Width and Precision answer next to ok=false (the interface
+	// promises nothing about it; formatters other than fmt's leave the
+	// number of the previous directive there)
+	staleWid, stalePrec int
+	// wmode 1: Write accepts wafter more bytes and then fails; 2: it then
+	// reports short counts with a nil error as well
+	wmode, wafter int
+	refused       bool
 }
 
 func (s *simState) Write(b []byte) (int, error) {
 	s.writes++
+	if s.wmode != 0 {
+		if len(b) > s.wafter {
+			n := s.wafter
+			s.wafter = 0
+			s.refused = true
+			s.out.Write(b[:n])
+			if s.wmode == 2 && s.writes%2 == 0 {
+				return n, nil
+			}
+			return n, ErrInjected
+		}
+		s.wafter -= len(b)
+	}
 	return s.out.Write(b)
 }
 
 func (s *simState) Width() (int, bool) {
 	if !s.f.WidPresent {
-		return 0, false
+		return s.staleWid, false
 	}
 	return s.f.Wid, true
 }
 
 func (s *simState) Precision() (int, bool) {
 	if !s.f.PrecPresent {
-		return 0, false
+		return s.stalePrec, false
 	}
 	return s.f.Prec, true
 }
@@ -241,10 +262,19 @@ func init() {
 			return
 		}
 		st := &simState{f: f}
+		if len(op.I) >= 4 {
+			st.staleWid, st.stalePrec = int(op.int(0)), int(op.int(1))
+			st.wmode, st.wafter = int(op.int(2)), int(op.int(3))
+		}
 		x.call(r, func() {
 			a.Format(st, rune(verb))
 			r.str(st.out.String())
 			r.int(int64(st.writes))
+			if st.refused {
+				r.int(1)
+			} else {
+				r.int(0)
+			}
 		})
 	}).Check = func(x *Ctx, op *Op, r *Result) string {
 		if s := noPanic(r); s != "" {
@@ -253,7 +283,14 @@ func init() {
 		if len(r.S) == 0 {
 			return ""
 		}
-		return checkSpec(op.dec(0), op.str(0), r.S[0], "Format(State)")
+		if len(r.I) >= 2 && r.I[1] == 1 {
+			return "" // the State refused bytes: only termination without a panic is required
+		}
+		what := "Format(State)"
+		if len(op.I) >= 4 {
+			what = fmt.Sprintf("Format(State answering (%d,false) for an absent width and (%d,false) for an absent precision)", op.int(0), op.int(1))
+		}
+		return checkSpec(op.dec(0), op.str(0), r.S[0], what)
 	}
 
 	// AppendVsSprintf: D[0], S[0] = spec. The statement's last clause.
